@@ -144,7 +144,15 @@ func (l *Lexer) bracesToken(tok token.TokenType, literal string) token.Token {
 
 func (l *Lexer) illegalToken() token.Token {
 	l.tokenBegins()
-	return l.newToken(token.ILLEGAL, string(l.char))
+
+	tok := l.newToken(token.ILLEGAL, string(l.char))
+
+	// the illegal character is not consumed, so the token
+	// ends where it starts and not at the previous character
+	tok.Pos.EndLine = tok.Pos.StartLine
+	tok.Pos.EndCol = tok.Pos.StartCol
+
+	return tok
 }
 
 func (l *Lexer) directiveToken() token.Token {
